@@ -212,6 +212,8 @@ def run_special(acc):
         lambda: [e("f", 0), e("e\u0301", 1), e("\xe9", 2), e("e", 3), e("E", 4), e("\u017f", 5), e("s", 6), e("\xdf", 7), e("ss", 8)],
         lambda: [e("\u0130", 0), e("i", 1), e("I", 2), e("\u0131", 3), e("i\u0307", 4)],
         same_object_above_several,
+        # keys holding characters with a meaning in %-formats, templates and regular expressions
+        lambda: [e("rate50%", 0), ctwin(), e("k%d", 1), e("a%b", 2), twin(), e("%s", 3), e("{0}", 4), e("a.b", 5), e("a+b", 6), e("a|b", 7), e("\\1", 8)],
         subclass_blocks,
         lambda: subclass_blocks()[:5],
         lambda: subclass_blocks()[::-1],
